@@ -1359,12 +1359,19 @@ impl ValueWriter<'_, '_> {
                     Self::write_observation(buf, counts, first, multiplicity, name).is_ok();
                 wrote_anything |= wrote;
                 for observation in second.into_iter().chain(distribution) {
-                    if wrote {
+                    let (buf_len, counts_len) = (buf.as_str().len(), counts.as_str().len());
+                    if wrote_anything {
                         buf.push(',');
                         counts.push(',');
                     }
                     wrote = Self::write_observation(buf, counts, observation, multiplicity, name)
                         .is_ok();
+                    if !wrote {
+                        // take back the separator of a skipped (NaN) observation, otherwise a
+                        // skipped trailing observation would leave `[1,]` behind
+                        buf.truncate(buf_len);
+                        counts.truncate(counts_len);
+                    }
                     wrote_anything |= wrote;
                 }
                 // injection-safe because this is a comma-separated list of numbers
